@@ -12,8 +12,8 @@ package main
 //	item  :=  p | e id bytes
 //	pad   :=  none | some filler
 //
-//	c03.wire  wire bytes                          => un hn re reUn
-//	c03.mut   bytes                               => un hn re reUn
+//	c03.wire  wire bytes <n> q*                   => un hn re reUn <n> id* <n> obytes*
+//	c03.mut   bytes <n> q*                        => un hn re reUn <n> id* <n> obytes*
 //	c03.view  kind blk bytes <n> q* fill          => unm ids <n> get* marshal size <n> to*
 
 import (
@@ -171,8 +171,37 @@ func writeWire(t *Toks, w *WireDesc) {
 	}
 }
 
-// observeC03 runs the real decoder and encoder on one byte string: un hn re reUn.
-func observeC03(o *Toks, buf []byte) (accepted bool) {
+// writeQueries writes the ids passed to GetExtension as part of the input.
+func writeQueries(t *Toks, qs []uint8) {
+	t.Nat(len(qs))
+	for _, q := range qs {
+		t.Nat(int(q))
+	}
+}
+
+// observeC03 runs the real decoder and encoder on one byte string and reads the decoded header
+// through its public accessors: un hn re reUn ids gets.
+func observeC03(o *Toks, buf []byte, queries []uint8) (accepted bool) {
+	accepted = observeC03codec(o, buf)
+	if !accepted {
+		o.Nat(0).Nat(0)
+		return false
+	}
+	p := &rtp.Packet{}
+	_ = p.Unmarshal(cloneBytes(buf))
+	ids := p.GetExtensionIDs()
+	o.Nat(len(ids))
+	for _, id := range ids {
+		o.Nat(int(id))
+	}
+	o.Nat(len(queries))
+	for _, q := range queries {
+		o.OBytes(p.GetExtension(q))
+	}
+	return true
+}
+
+func observeC03codec(o *Toks, buf []byte) (accepted bool) {
 	p := &rtp.Packet{}
 	var err error
 	if try(func() { err = p.Unmarshal(cloneBytes(buf)) }) {
@@ -649,9 +678,11 @@ func init() {
 				w := mk(c)
 				tagWire(c, w)
 				img := encodeWire(w)
+				qs := viewQueries(c.R, &w.Ext)
 				writeWire(&c.I, w)
 				c.I.Bytes(img)
-				observeC03(&c.O, img)
+				writeQueries(&c.I, qs)
+				observeC03(&c.O, img, qs)
 			})
 		}
 		// boundary grid: every block layout × CSRC count × payload × padding
@@ -794,8 +825,10 @@ func init() {
 		emit := func(mk func(c *Case) []byte) {
 			x.Case(func(c *Case) {
 				buf := mk(c)
+				qs := []uint8{0, 1, 2, 15, uint8(c.R.Range(1, 255)), uint8(c.R.Range(1, 14))}
 				c.I.Bytes(buf)
-				if !observeC03(&c.O, buf) {
+				writeQueries(&c.I, qs)
+				if !observeC03(&c.O, buf, qs) {
 					c.Tag("rejected")
 					c.Trivial()
 				} else {
